@@ -1,6 +1,7 @@
 import GambitV.Model.Pipeline
 import Driver.Proto
 import Driver.C16
+import GambitV.Model.SeqFiles
 namespace Driver.C08
 open GambitV Driver
 
@@ -26,6 +27,16 @@ def handle : List String → Option String
     let r := match sequenceFiles pos lines ['D'] with
       | some fs => ";".intercalate (fs.map (fun f => String.ofList (fileLabel f.1) ++ "|" ++ String.ofList f.2))
       | none => "~"
+    pure (expect r (String.ofList (← Driver.C16.strOfHex real)))
+  -- the same with pathlib's normal form, stripped list-file lines and a base directory of any form (`sequenceFilesP`)
+  | ["c08.seqfilesp", positional, lines, ldir, real] => do
+    let pos ← Driver.C16.parseStrs positional
+    let lines ← if lines == "~" then some none else (Driver.C16.parseStrs lines).map some
+    let ldir ← Driver.C16.strOfHex ldir
+    let r := match sequenceFilesP (lines.getD []) (some pos) lines.isSome (some ldir) true true with
+      | .ok (some (ids, files)) => ";".intercalate ((ids.zip files).map (fun x => String.ofList x.1 ++ "|" ++ String.ofList x.2))
+      | .ok none => "~"
+      | .error _ => "!TypeError"
     pure (expect r (String.ofList (← Driver.C16.strOfHex real)))
   | _ => none
 
